@@ -10,7 +10,8 @@ from typing import Dict, List, Optional, Tuple
 from ..cfg import CFG
 from ..core import (AnalysisError, FuncInfo, ancestors, ap, atoms, call_attr, calls, enclosing_stmt, facts,
                     find_calls, is_none_test, norm, parent, stores, walk)
-from .common import inline_self_calls, must_pass, normal_path, origin, single_def, where_of
+from .common import (cfg_node_expr, cfg_node_fallible, inline_self_calls, must_pass, normal_path, origin,
+                     single_def, where_of)
 from .c14 import bind_call, body_must_pass, fast_callers_of, fast_writers_of, strip_copy
 
 HEM = "hippolyzer/lib/proxy/http_event_manager.py"
@@ -345,6 +346,15 @@ def r2(ctx, m: RespModel):
             wit = None if all(x in mn for x in tn) else must_pass(fn.cfg, mn, starts=tn)
             ctx.ob("C17.R2", f"{K}: every drained batch reaches the outgoing list", wit is None, fn.w(t),
                    "events are taken from the queue but merged only on some paths", fn.describe(wit))
+        if merges and not all(x in mn for x in tn):
+            between = fn.cfg.reachable(tn, avoid=lambda n: n in mn, exc=False)
+            bad = [n for n in between if n not in tn and cfg_node_fallible(fn.cfg, n)]
+            bad.sort(key=lambda n: getattr(n.ast, "lineno", 0))
+            ctx.ob("C17.R2", f"{K}: nothing that can fail runs between draining the queue and the merge", not bad, fn.w(t),
+                   "take_injected_events() is destructive; if "
+                   + (norm(cfg_node_expr(fn.cfg, bad[0]))[:90] if bad else "...") +
+                   " raises, the drained events are discarded with the exception (the response passes through "
+                   "unmodified) and are never delivered")
         st = enclosing_stmt(t)
         extra = rel_facts(st, m.anchor, tree)
         missing = rel_facts(m.anchor, st, tree)
@@ -585,8 +595,27 @@ def r4(ctx):
                    "creates a duplicate", f.describe(dom or back))
             ifs = [a for a in ancestors(cmp_) if isinstance(a, ast.If)]
             test_if = ifs[0] if ifs else None
+            flag = None
+            if test_if is None:  # comparison hoisted into a local flag that is tested afterwards
+                st_ = enclosing_stmt(cmp_)
+                if isinstance(st_, ast.Assign) and len(st_.targets) == 1 and isinstance(st_.targets[0], ast.Name) \
+                        and st_.value is cmp_ and single_def(f.tree, st_.targets[0].id) is cmp_:
+                    flag = st_.targets[0].id
+                    test_if = next((x for x in walk(lp) if isinstance(x, ast.If) and any(
+                        isinstance(e, ast.Name) and e.id == flag and p for e, p in atoms(x.test, True))), None)
+
+            def is_match(e):
+                return e is cmp_ or (flag is not None and isinstance(e, ast.Name) and e.id == flag)
+            if test_if is not None:
+                pre = facts(test_if, lp) + (facts(enclosing_stmt(cmp_), lp) if flag else [])
+                conj = [e for e, p in atoms(test_if.test, True) if not is_match(e)]
+                ctx.ob("C17.R4", "register_region: every region with the announced circuit address ends the search",
+                       not pre and not conj, f.w(cmp_),
+                       f"the address match is subject to further conditions "
+                       f"{[norm(e) for e, _ in pre] + [norm(e) for e in conj]}: a region that is skipped although its "
+                       f"address matches gets a duplicate appended")
             ok = False
-            if test_if is not None and any(p for e, p in atoms(test_if.test, True) if e is cmp_):
+            if test_if is not None and any(p for e, p in atoms(test_if.test, True) if is_match(e)):
                 firsts = f.cfg.nodes_for(test_if.body[0])
                 hit = normal_path(f.cfg, firsts, lambda n: n in an, include_start=True)
                 ok = hit is None
